@@ -10,6 +10,10 @@ ASSUMPTIONS = ["the game client's arithmetic is the published formula with C-sty
 
 
 def jobs(tier):
+    return [dict(j, second_solver=(10 if tier == "thorough" else 0)) for j in _jobs(tier)]
+
+
+def _jobs(tier):
     js = [dict(name="client_arithmetic", fn="client_arithmetic", args=[], collect_models=3, expect=["hash equals the client's truncating arithmetic"]),
           dict(name="documented_range", fn="documented_range", args=[], collect_models=3, expect=["non-negative up to the documented bound"])]
     if tier == "thorough":
